@@ -109,6 +109,14 @@ Proof.
   intros k a b c Hk Ha Hs. split; [apply pair_key_no_dash, Hk|]. split; [apply fs_key_no_arrow, Hk|]. split; [apply pair_key_two_dashes, Hk|].
   destruct (pair_key_missing_species a Ha Hs b) as [A _]. destruct (pair_key_missing_species a Ha Hs k) as [_ B]. split; [exact A|exact (B Hk)].
 Qed.
+(* ... and [Potential-Form] signatures (sig_key restates _parse_potential_form_signature and its pattern): the blank-free text of
+   NAME(r, p1, .., pn) -- whatever blanks and tabs it was written with, c20_key_spellings -- gives the label NAME and the
+   parameters r, p1, .., pn when the labels are identifiers; a key that goes on after the closing bracket is refused (fix 9a3d831) *)
+Theorem c16_signature_keys : forall (ltext : nat -> list Z), (forall n, label_ok (ltext n)) -> (forall m, ident_word (ltext m) = true) ->
+  forall n ps, sig_key (canon ltext (KSig n ps)) = Some (ltext n, [114%Z] :: map ltext ps).
+Proof. intros ltext L I n ps. apply sig_key_canon; assumption. Qed.
+Theorem c16_signature_trailing_text : forall k c, is_sp c = false -> c <> 41%Z -> c <> 40%Z -> sig_key (k ++ [c]) = None.
+Proof. exact sig_key_trailing. Qed.
 Print Assumptions c16_species_keys.
 
 (* --- text that is not an INI file (model/Ini.v, the line parser of configparser as the repository configures it): when the
